@@ -24,7 +24,8 @@ RULE = ('prefixes from the name generator; forwarder replies {200 with/without b
 
 C = lambda s: rc.comp(8, s)   # noqa
 REPLIES = ['200', '200-nobody', '400', '403-nobody', '404', '500-nobody', 'random-code', 'nack', 'silence', 'garbage',
-           'empty-content', 'no-content', 'wrong-outer', 'bad-signature', '200-extra-fields', '200-unknown-fields-inside', 'empty-signature', 'absent-signature-value']
+           'empty-content', 'no-content', 'wrong-outer', 'bad-signature', '200-extra-fields', '200-unknown-fields-inside', 'empty-signature', 'absent-signature-value',
+           'status-200-in-illegal-width', 'status-200-overrunning']
 
 
 def control_response(status, text=b'OK', body=None, unknown=None):
@@ -150,6 +151,13 @@ class Forwarder:
             content = rc.enc_tlv(0x65, U(0xF0) + rc.enc_tlv(0x66, rc.enc_nni(200)) + U(0x3E8) + rc.enc_tlv(0x67, b'OK') + U(0xF0) + rc.enc_tlv(0x68, body))
         elif kind == '200-extra-fields':
             content = control_response(200, 'Ωk'.encode(), cp_body(prefix, rc.enc_tlv(0x6d, rc.enc_nni(2**40))) + rc.enc_tlv(0xF0, b'zz'))
+        elif kind == 'status-200-in-illegal-width':
+            # the StatusCode element is 3 / 5 / 6 / 7 / 0 octets long (no NonNegativeInteger has that width) and reads 200 big-endian
+            wd = self.rng.choice([3, 5, 6, 7, 0])
+            content = rc.enc_tlv(0x65, rc.enc_tlv(0x66, (200).to_bytes(wd, 'big') if wd else b'') + rc.enc_tlv(0x67, b'OK') + rc.enc_tlv(0x68, cp_body(prefix)))
+        elif kind == 'status-200-overrunning':
+            # the StatusCode element declares more octets than its parent holds (the last octet present is 200)
+            content = rc.enc_tlv(0x65, b'\x66' + bytes([self.rng.choice([2, 4, 8])]) + b'\xc8')
         elif kind == '400':
             content = control_response(400, b'Malformed', cp_body(prefix))
         elif kind == '403-nobody':
